@@ -218,10 +218,10 @@ def worker(args):
             # `_remove_feature` on a copy of the fitted object vs its model (`Disc.removeFeature`, which the theorems on the key
             # sets of the per-feature attributes are about)
             import copy as _copy
-            o2 = _copy.deepcopy(obj)
             victim = rng.choice(list(obj.features) + ["not_a_feature"])
             st = fitgen.state_wire(obj)
             try:
+                o2 = _copy.deepcopy(obj)
                 o2._remove_feature(victim)
                 impl = {"features": list(o2.features), "quant": list(o2.quantitative_features), "qual": list(o2.qualitative_features),
                         "orders": list(o2.values_orders), "lpv": list(o2.labels_per_values), "feat_dropna": list(o2.features_dropna),
